@@ -519,8 +519,32 @@ func serialize(s *simdjson.Serializer, pj *simdjson.ParsedJson) (out []byte, pan
 			panicked = fmt.Sprint(r)
 		}
 	}()
-	return s.Serialize(nil, *pj), ""
+	// every other call hands Serialize an empty destination with dirty spare capacity (a few bytes,
+	// so the blob outgrows it, or a lot): the blob must not depend on it
+	serializeFlip++
+	switch serializeFlip % 4 {
+	case 1, 3:
+		return s.Serialize(nil, *pj), ""
+	}
+	n := 5
+	if serializeFlip%4 == 2 {
+		n = 1 << 12
+	}
+	if cap(serializeDirty) < n {
+		serializeDirty = make([]byte, n)
+	}
+	d := serializeDirty[:n]
+	for i := range d {
+		d[i] = 0xFF
+	}
+	out = s.Serialize(d[:0:n], *pj)
+	return append([]byte(nil), out...), ""
 }
+
+var (
+	serializeFlip  int
+	serializeDirty []byte
+)
 
 func deserialize(s *simdjson.Serializer, b []byte, dst *simdjson.ParsedJson) (pj *simdjson.ParsedJson, err error, panicked string) {
 	defer func() {
